@@ -198,6 +198,110 @@ def history_lines(seed, ntraces, steps):
     return out
 
 
+_owners = {}
+
+
+def _dict_owner(kvm, vvm):
+    """HasTraits class with d = Dict(key trait, value trait) validating like the TraitDict validators of kvm / vvm"""
+    key = (kvm, vvm)
+    if key not in _owners:
+        from traits.api import Any, Dict, HasTraits, TraitType
+
+        class CoerceItem(TraitType):
+            def validate(self, object, name, value):
+                return _coerce_validator(value)
+        mk = lambda vm: CoerceItem() if vm == "coerce" else Any()
+        _owners[key] = type("DictOwner_%s_%s" % key, (HasTraits,), {"d": Dict(mk(kvm), mk(vvm))})
+    return _owners[key]
+
+
+def owner_history_lines(seed, ntraces, steps):
+    """the TraitDict as the value of a Dict trait: operations on the current value, whole-value assignments, and
+    operations on FORMER values of the attribute (kept by the driver); what is recorded is the attribute's contents and
+    the d_items events the owner's handler received"""
+    build.install()
+    from traits.trait_errors import TraitError
+    rnd = random.Random(seed + 7919)
+    out = []
+    ops = ["setitem", "setitem", "delitem", "update", "ior", "setdefault", "pop", "popitem", "clear"]
+    for t in range(ntraces):
+        kvm, vvm = rnd.choice([("id", "id"), ("coerce", "coerce"), ("coerce", "id"), ("id", "coerce")])
+        keys = [1, 2, 3, 4] + ([11, 12] if kvm == "id" else [])
+        o = _dict_owner(kvm, vvm)()
+        events = []
+
+        def handler(event):
+            events.append({"removed": proj_pairs(event.removed), "added": proj_pairs(event.added),
+                           "changed": proj_pairs(event.changed)})
+        o.on_trait_change(handler, "d_items")
+        stale = []
+        for _ in range(steps):
+            pre = proj_pairs(o.d)
+            del events[:]
+            ka = [1, 2, 3, 4, 11, 12, 13] + ([99] if rnd.random() < 0.15 else [])
+            va = [1, 2, 3, 4, 11, 12] + ([99] if rnd.random() < 0.15 else [])
+            a, ps, exc, ret, is_stale = [0, 0, 0], [], "", [NONE], 0
+            u = rnd.random()
+            if u < 0.14:
+                op = "assign"
+                ps = [[rnd.choice(ka), rnd.choice(va)] for _ in range(rnd.randint(0, 4))]
+                seen = set()
+                ps = [p for p in ps if not (p[0] in seen or seen.add(p[0]))]
+                if stale and rnd.random() < 0.4:
+                    # (a superset / subset of a former value: one operation on that value can make the two equal)
+                    ps = [list(p) for p in proj_pairs(rnd.choice(stale))] + [[rnd.choice([1, 2, 3, 4]), rnd.choice([1, 2, 3, 4])]]
+                    seen = set()
+                    ps = [p for p in ps if p[0] < 700 and not (p[0] in seen or seen.add(p[0]))]
+                old = o.d
+                try:
+                    o.d = dict((conc(kvm, k), conc(vvm, v)) for k, v in ps)
+                    stale.append(old)
+                except TraitError:
+                    exc = "TraitError"
+                except Exception as e:
+                    exc = type(e).__name__
+            else:
+                op = rnd.choice(ops)
+                target = o.d
+                if stale and u < 0.34:
+                    target, is_stale = rnd.choice(stale), 1
+                if op in ("setitem", "setdefault"):
+                    a = [rnd.choice(ka), rnd.choice(va), 0]
+                elif op == "delitem":
+                    a = [rnd.choice(keys), 0, 0]
+                elif op in ("update", "ior"):
+                    ps = [[rnd.choice(ka), rnd.choice(va)] for _ in range(rnd.randint(0, 4))]
+                    a[0] = rnd.randint(0, 1)
+                    if a[0] == 0:
+                        seen = set()
+                        ps = [p for p in ps if not (p[0] in seen or seen.add(p[0]))]
+                elif op == "pop":
+                    h = rnd.randint(0, 1)
+                    a = [rnd.choice(keys), h, 3 if h else 0]
+                if is_stale and rnd.random() < 0.6:
+                    # steer the former value towards the current one
+                    live, cur = dict(o.d), dict(target)
+                    diff = [k for k in set(live) | set(cur) if live.get(k, None) != cur.get(k, None) or (k in live) != (k in cur)]
+                    if diff:
+                        k = rnd.choice(diff)
+                        if k in live and type(k) is int and type(live[k]) is int:
+                            op, a = "setitem", [k, live[k], 0]
+                        elif type(k) is int:
+                            op, a = "delitem", [k, 0, 0]
+                try:
+                    ret, _ = perform(target, op, a, ps, kvm, vvm, 0)
+                except TraitError:
+                    exc = "TraitError"
+                except Exception as e:
+                    exc = type(e).__name__
+            post = proj_pairs(o.d)
+            out.append({"op": op, "a": a, "ps": ps, "kvm": kvm, "vvm": vvm, "pre": pre, "post": post, "exc": exc, "ret": ret,
+                        "evs": list(events), "builtin": [], "rep": 0, "owner": 1, "stale": is_stale, "tid": t})
+            if any(777 in p for p in post):
+                break
+    return out
+
+
 def sig_of(rec, cl):
     if cl == ["KF14"]:
         return "C06:KF14:setdefault-raw-key-absent-validated-present"
@@ -228,7 +332,14 @@ def run(rep, tier, seed):
                 f.write(json.dumps(r, separators=(",", ":")) + "\n")
         rep.case(len(hl))
         rep.sample(hl[len(hl) // 2])
-        n = tot["nlines"] + len(hl)
+        ol = owner_history_lines(seed, nh // 2, steps)
+        with open(trace, "a") as f:
+            for r in ol:
+                f.write(json.dumps(r, separators=(",", ":")) + "\n")
+        rep.case(len(ol))
+        rep.extra["owner_level_steps"] = len(ol)
+        rep.extra["owner_level_steps_on_detached_values"] = sum(r["stale"] for r in ol)
+        n = tot["nlines"] + len(hl) + len(ol)
         judge.judge(rep, "Trace_TraitDict", "Trace_TraitDict", "Trace_TraitDict.cfg", trace, n, sig_of=sig_of,
                     heap="8g" if tier == "quick" else "24g")
         from .. import suite_phase
@@ -236,8 +347,9 @@ def run(rep, tier, seed):
         rep.notes.append("%d TraitDict operations recorded while the repository's own tests ran were judged by the same judge" % ns)
         rep.rule = ("every (ordered dict, key/value validator modes, operation, arguments) state enumerated by TLC from "
                     "TraitDictMC (%s) executed on a real TraitDict (int keys and, under the identity validator, equal "
-                    "float keys) and on a builtin dict, plus %d seeded history steps; every record judged by TLC" %
-                    (cfg, len(hl)))
+                    "float keys) and on a builtin dict, plus %d seeded history steps, plus %d steps on the TraitDict of a Dict "
+                    "trait seen from its owner (d_items events, whole-value assignment, operations on detached former "
+                    "values); every record judged by TLC" % (cfg, len(hl), len(ol)))
         rep.exhaustive = True
         rep.extra["cases_from_tlc_dump"] = tot["ncases"]
         rep.extra["history_steps"] = len(hl)
